@@ -31,6 +31,9 @@ pub struct Entry<'a> { pub _p: core::marker::PhantomData<&'a mut PaymentState> }
 impl MutexGuard<HashMap<Hash, PaymentState>> {
     #[verifier::external_body]
     fn entry<'a>(&'a mut self, k: Hash) -> (r: Entry<'a>) { unimplemented!() }
+    // membership test: nothing is promised about the answer (any table content is possible)
+    #[verifier::external_body]
+    fn contains_key(&self, k: &Hash) -> (r: bool) { unimplemented!() }
 }
 impl<'a> Entry<'a> {
     #[verifier::external_body]
